@@ -77,9 +77,21 @@ class CompactDiskAudioImage(Image):
     name: ClassVar[str] = "CDDA Image"
     type_name: ClassVar[str] = "CDDA Image"
 
+    def __post_init__(self):
+        self._routines = {}
+        self._children = None
+
+
     @property
     def children(self):
-        return self.tracks
+        # the tracks get their listing/export names from the same
+        # routines as the entries of every other image type
+        if self._children is None:
+            tracks = self.tracks
+            for routine in self._routines.values():
+                tracks = routine(tracks)
+            self._children = tracks
+        return self._children
 
     def combine_stereo_routine(self, samples: List[Sample]) -> List[Sample]:
         result = samples
